@@ -40,7 +40,7 @@ def find_fn(F, rx):
 
 
 def check(run):
-    for cfg in ("A", "B"):
+    for cfg in run.cfgs("A", "B"):
         F = run.facts(cfg)
         run.guard("C08.1.state-coverage", cfg, lambda: rule_coverage(run, F, cfg))
         run.guard("C08.2.positional", cfg, lambda: rule_positional(run, F, cfg))
